@@ -36,3 +36,11 @@ CHECKS["C02"] = {
         _sub("TestC02_Model", 3000, 100000, sq=16, st=16),
     ],
 }
+
+CHECKS["C07"] = {
+    "level": "exploration",
+    "subs": [
+        _sub("TestC07_Order", 120000, 4000000, sq=6, st=8),
+        _sub("TestC07_SQL", 1500, 60000, sq=10, st=8),
+    ],
+}
